@@ -452,6 +452,9 @@ pub fn run_script(m: bool, script: &[Cmd], schedule: Schedule) -> Run {
         "status": r.status,
         "stderr": stderr.len() > 0,
     });
+    // break the cycle state -> executor -> unfinished tasks -> state, or every run leaks
+    let executor = r.state.borrow_mut().executor.take();
+    drop(executor);
     Run { record, choices: r.choices }
 }
 
@@ -528,72 +531,92 @@ pub fn explore(args: &[String]) -> i32 {
     let threads = opt_usize(args, "--threads", 8).max(1);
     let seed = yvcommon::util::seed();
     let input = yvcommon::util::open_in(args);
-    // work items: (m, script)
-    let mut items: Vec<(bool, Vec<Cmd>)> = vec![];
+    let mut lines: Vec<String> = vec![];
     for line in input.lines() {
         let Ok(line) = line else { continue };
-        if line.trim().is_empty() {
-            continue;
-        }
-        let v: Value = match serde_json::from_str(&line) {
-            Ok(v) => v,
-            Err(e) => {
-                eprintln!("bad input line: {e}");
-                return 2;
-            }
-        };
-        let m = v["m"].as_bool().unwrap_or(false);
-        let h = parse_script(&v["h"]);
-        let next = parse_script(&v["next"]);
-        if next.is_empty() {
-            items.push((m, h));
-        } else {
-            for c in next {
-                let mut s = h.clone();
-                s.push(c);
-                items.push((m, s));
-            }
+        if !line.trim().is_empty() {
+            lines.push(line);
         }
     }
-    // different model states may have the same witness script
-    let mut seen_items = std::collections::HashSet::new();
-    items.retain(|(m, s)| seen_items.insert(format!("{m}{}", json!(s.iter().map(|c| c.to_json()).collect::<Vec<_>>()))));
-    let n = items.len();
-    let items = std::sync::Arc::new(items);
+    let lines = std::sync::Arc::new(lines);
     let cursor = std::sync::Arc::new(std::sync::atomic::AtomicUsize::new(0));
+    // different model states may have the same witness script: every script is run once
+    let seen = std::sync::Arc::new(std::sync::Mutex::new(std::collections::HashSet::<u64>::new()));
+    let (tx, rx) = std::sync::mpsc::sync_channel::<Vec<String>>(1024);
     let mut handles = vec![];
     for _ in 0..threads {
-        let items = std::sync::Arc::clone(&items);
+        let lines = std::sync::Arc::clone(&lines);
         let cursor = std::sync::Arc::clone(&cursor);
-        handles.push(std::thread::spawn(move || {
-            let mut out: Vec<(usize, Vec<String>)> = vec![];
-            let (mut runs, mut maxcp, mut capped) = (0usize, 0usize, 0usize);
+        let seen = std::sync::Arc::clone(&seen);
+        let tx = tx.clone();
+        handles.push(std::thread::spawn(move || -> Result<(usize, usize, usize, usize), String> {
+            use std::hash::{Hash, Hasher};
+            let (mut scripts, mut runs, mut maxcp, mut capped) = (0usize, 0usize, 0usize, 0usize);
             loop {
                 let k = cursor.fetch_add(1, std::sync::atomic::Ordering::SeqCst);
-                if k >= items.len() {
+                if k >= lines.len() {
                     break;
                 }
-                let (m, script) = &items[k];
-                let ex = explore_script(*m, script, dfs_depth, max_dfs, random, seed.wrapping_add(k as u64));
-                runs += ex.runs;
-                maxcp = maxcp.max(ex.max_choice_points);
-                if !ex.dfs_exhausted {
-                    capped += 1;
+                let v: Value = serde_json::from_str(&lines[k]).map_err(|e| format!("bad input line {}: {e}", k + 1))?;
+                let m = v["m"].as_bool().unwrap_or(false);
+                let h = parse_script(&v["h"]);
+                let next = parse_script(&v["next"]);
+                let mut items: Vec<Vec<Cmd>> = vec![];
+                if next.is_empty() {
+                    items.push(h);
+                } else {
+                    for c in next {
+                        let mut s = h.clone();
+                        s.push(c);
+                        items.push(s);
+                    }
                 }
-                out.push((k, ex.records.iter().map(|r| r.to_string()).collect()));
+                for script in items {
+                    let text = format!("{m}{}", json!(script.iter().map(|c| c.to_json()).collect::<Vec<_>>()));
+                    let mut hasher = std::collections::hash_map::DefaultHasher::new();
+                    text.hash(&mut hasher);
+                    let hv = hasher.finish();
+                    if !seen.lock().map_err(|_| "lock")?.insert(hv) {
+                        continue;
+                    }
+                    scripts += 1;
+                    let ex = explore_script(m, &script, dfs_depth, max_dfs, random, seed.wrapping_add(hv % 1_000_003));
+                    runs += ex.runs;
+                    maxcp = maxcp.max(ex.max_choice_points);
+                    if !ex.dfs_exhausted {
+                        capped += 1;
+                    }
+                    tx.send(ex.records.iter().map(|r| r.to_string()).collect()).map_err(|_| "writer gone")?;
+                }
             }
-            (out, runs, maxcp, capped)
+            Ok((scripts, runs, maxcp, capped))
         }));
     }
-    let mut all: Vec<(usize, Vec<String>)> = vec![];
-    let (mut runs, mut maxcp, mut capped) = (0usize, 0usize, 0usize);
+    drop(tx);
+    let mut w = yvcommon::util::open_out(args);
+    let mut nrec = 0usize;
+    for recs in rx {
+        for r in recs {
+            if writeln!(w, "{r}").is_err() {
+                eprintln!("cannot write the trace");
+                return 2;
+            }
+            nrec += 1;
+        }
+    }
+    let _ = w.flush();
+    let (mut n, mut runs, mut maxcp, mut capped) = (0usize, 0usize, 0usize, 0usize);
     for h in handles {
         match h.join() {
-            Ok((o, r, m, c)) => {
-                all.extend(o);
+            Ok(Ok((s, r, m, c))) => {
+                n += s;
                 runs += r;
                 maxcp = maxcp.max(m);
                 capped += c;
+            }
+            Ok(Err(e)) => {
+                eprintln!("worker failed: {e}");
+                return 2;
             }
             Err(_) => {
                 eprintln!("worker thread died");
@@ -601,17 +624,7 @@ pub fn explore(args: &[String]) -> i32 {
             }
         }
     }
-    all.sort_by_key(|x| x.0);
-    let mut w = yvcommon::util::open_out(args);
-    let mut nrec = 0;
-    for (_, recs) in &all {
-        for r in recs {
-            let _ = writeln!(w, "{r}");
-            nrec += 1;
-        }
-    }
-    let _ = w.flush();
-    // summary on stdout's sibling: stderr as JSON
+    // summary: last line of stderr, JSON
     eprintln!("{}", json!({"scripts": n, "runs": runs, "records": nrec, "max_choice_points": maxcp, "dfs_capped": capped}));
     0
 }
